@@ -95,16 +95,41 @@ class _Canon(ast.NodeTransformer):
         return n
 
 
+class _LambdaParams(ast.NodeTransformer):
+    """lambda parameters are bound names: they are numbered by position so that `lambda x, y: x @ y` and `lambda left, right: left @ right` agree, while a
+    body that reaches for an OUTER name of the same spelling does not"""
+    def __init__(self):
+        self.depth = 0
+
+    def visit_Lambda(self, n):
+        a = n.args
+        params = [x.arg for x in a.posonlyargs + a.args + a.kwonlyargs] + ([a.vararg.arg] if a.vararg else []) + ([a.kwarg.arg] if a.kwarg else [])
+        mapping = {p: "_p%d_%d" % (self.depth, k) for k, p in enumerate(params)}
+        self.depth += 1
+        n = self.generic_visit(n)
+        self.depth -= 1
+        for x in a.posonlyargs + a.args + a.kwonlyargs + ([a.vararg] if a.vararg else []) + ([a.kwarg] if a.kwarg else []):
+            x.arg = mapping[x.arg]
+        n.body = _Rename(mapping).visit(n.body)
+        return n
+
+
+def canon_lambdas(expr):
+    return _LambdaParams().visit(copy.deepcopy(expr))
+
+
 def key(expr):
-    e = _Canon().visit(copy.deepcopy(expr))
+    e = _Canon().visit(canon_lambdas(expr))
     return ast.dump(e, annotate_fields=False, include_attributes=False)
 
 
 def vocab(expr):
     v = set()
+    expr = canon_lambdas(expr) if isinstance(expr, ast.expr) else expr
     for n in ast.walk(expr):
         if isinstance(n, ast.Name):
-            v.add(n.id)
+            if not n.id.startswith("_p"):
+                v.add(n.id)
         elif isinstance(n, ast.Attribute):
             v.add(n.attr)
         elif isinstance(n, ast.Constant):
